@@ -42,6 +42,7 @@ type config struct {
 	claimExt  bool
 	xrExt     bool
 	edit      int
+	noSettle  bool
 	statusVar int // 0: XR ready + claimConditionTypes, 1: XR ready, none listed, 2: XR not ready + listed
 }
 
@@ -306,7 +307,9 @@ func run(r *explore.Run, rep *report.R, sc string, c config) {
 		xrSide(s, c)
 		editClaim(s, c)
 		c2 := w.sync("resync", later, laterSSA, c0)
-		w.sync("settle", later, laterSSA, c2)
+		if !c.noSettle {
+			w.sync("settle", later, laterSSA, c2)
+		}
 	}
 
 	if len(w.viols) == 0 {
@@ -362,22 +365,23 @@ func fieldsBody(mode string, machs []machSet, envFull bool, rep *report.R, sc st
 	}
 }
 
-// metaBody: label key subset x annotation key subset x external names x
-// label edit; the user spec alternates between {param} and empty.
+// metaBody: label key subset x annotation key subset x (external names,
+// label edit); the user spec alternates between {param} and empty. The
+// settling sync is skipped except in upgrade mode (where the second
+// server-side reconcile completes the managed-fields upgrade).
 func metaBody(mode string, sp space, rep *report.R, sc string) func(r *explore.Run) {
 	return func(r *explore.Run) {
 		c := config{mode: mode, family: "meta"}
 		li := r.Free(len(sp.labels), "labels")
 		ai := r.Free(len(sp.anns), "annotations")
 		c.labels, c.anns = sp.labels[li], sp.anns[ai]
-		e := r.Free(4, "external-names")
-		c.claimExt, c.xrExt = e&1 != 0, e&2 != 0
-		if r.Bool("edit-labels") {
-			c.edit = 5
-		}
+		// (external names, label edit) pairs covering every value of each.
+		ee := [][2]int{{0, 0}, {3, 5}, {1, 5}, {2, 0}}[r.Free(4, "extnames-edit")]
+		c.claimExt, c.xrExt, c.edit = ee[0]&1 != 0, ee[0]&2 != 0, ee[1]
 		if (li+ai)%2 == 1 {
 			c.shape = 4
 		}
+		c.noSettle = mode != "upgrade"
 		run(r, rep, sc, c)
 	}
 }
@@ -386,7 +390,7 @@ func TestCheck(t *testing.T) {
 	debug.SetGCPercent(400)
 	rep := report.New("C07", "exploration")
 	rep.Meta(
-		"Every case is a claim that is a valid instance of the claim CRD generated (internal/xcrd) from an XRD with user fields {param, count, nested{resourceRef,claimRef,compositionRef,writeConnectionSecretToRef,compositeDeletePolicy,resourceRefs}, free (preserve-unknown), items[], xrOnly; status out,count,nestedOut{conditions,connectionDetails,claimConditionTypes}}: unknown top-level spec fields (claimRef, resourceRefs, ...) are pruned with the real structural-schema pruning, defaults applied, the result validated. Family 'fields': machinery subset x user-field shape x external names (claim, XR) x edit x XR status variant; family 'meta': label key subset x annotation key subset x external names x label edit x empty user spec. Each case runs the real claim reconciler three times: first sync (no XR), then the XR side writes its own state (resourceRefs, its own writeConnectionSecretToRef, selected compositionRef / compositionRevisionRef, external name, an XR-only user field, status with user fields + conditions + connectionDetails + claimConditionTypes) and the user edits the claim, re-sync, settle; for mode csa, ssa, and upgrade (first sync client-side, later syncs server-side with the managed-fields upgrader). After every sync the stored claim and XR are compared field by field with the reference partition. Non-trivial: the claim has at least one machinery field or a reserved / near-miss label or annotation key; distinct by (case, phase).",
+		"Every case is a claim that is a valid instance of the claim CRD generated (internal/xcrd) from an XRD with user fields {param, count, nested{resourceRef,claimRef,compositionRef,writeConnectionSecretToRef,compositeDeletePolicy,resourceRefs}, free (preserve-unknown), items[], xrOnly; status out,count,nestedOut{conditions,connectionDetails,claimConditionTypes}}: unknown top-level spec fields (claimRef, resourceRefs, ...) are pruned with the real structural-schema pruning, defaults applied, the result validated. Family 'fields': machinery subset x user-field shape x edit x environment (external names of claim / XR paired with XR status variant; the full 4x3 product in 'fields-env' on the quick machinery list); family 'meta': label key subset x annotation key subset x (external names, label edit) with the user spec alternating {param}/empty. Thorough: all 768 machinery subsets and all 512 label / annotation key subsets (one side full, the other reduced to none/each alone/all) for modes csa and ssa; mode upgrade uses the quick alphabets in both tiers. Each case runs the real claim reconciler three times: first sync (no XR), then the XR side writes its own state (resourceRefs, its own writeConnectionSecretToRef, selected compositionRef / compositionRevisionRef, external name, an XR-only user field, status with user fields + conditions + connectionDetails + claimConditionTypes) and the user edits the claim, re-sync, settle; for mode csa, ssa, and upgrade (first sync client-side, later syncs server-side with the managed-fields upgrader). After every sync the stored claim and XR are compared field by field with the reference partition. Non-trivial: the claim has at least one machinery field or a reserved / near-miss label or annotation key; distinct by (case, phase).",
 		[]string{
 			"simkube models the API server (real structured-merge-diff for server-side apply, JSON merge patch, status subresource); it does not prune writes, so what the syncer sends is what is stored (stricter than a pruning server)",
 			"removal of a field from the claim is required to reach the XR only in mode ssa (a merge patch cannot delete; known limitation of the client-side syncer and of the upgrade path)",
@@ -404,27 +408,34 @@ func TestCheck(t *testing.T) {
 		sp.mach = allMachSets()
 	}
 	rep.Bound("machinery_sets", len(sp.mach))
+	rep.Bound("machinery_sets_upgrade_mode", len(quickMachSets()))
 	rep.Bound("user_shapes", nShapes)
 	rep.Bound("label_keys", len(metaKeys))
 	rep.Bound("syncs_per_case", 3)
 	rep.Bound("modes", []string{"csa", "ssa", "upgrade"})
 
 	var list []report.Scenario
+	quickSp := space{mach: quickMachSets(), labels: reducedKeySets(), anns: reducedKeySets()}
 	for _, mode := range []string{"csa", "ssa", "upgrade"} {
 		mode := mode
 		add := func(name string, body func(sc string) func(r *explore.Run)) {
 			sc := mode + "/" + name
 			list = append(list, report.Scenario{Name: sc, Bound: 0, Wrap: report.Bubble(t), Body: body(sc)})
 		}
-		add("fields", func(sc string) func(r *explore.Run) { return fieldsBody(mode, sp.mach, false, rep, sc) })
-		if !report.Thorough() {
-			add("meta", func(sc string) func(r *explore.Run) { return metaBody(mode, sp, rep, sc) })
+		// The upgrade path differs from ssa only in the managed-fields
+		// handling: it gets the quick alphabets in both tiers.
+		if !report.Thorough() || mode == "upgrade" {
+			add("fields", func(sc string) func(r *explore.Run) { return fieldsBody(mode, quickSp.mach, false, rep, sc) })
+			if report.Thorough() {
+				add("fields-env", func(sc string) func(r *explore.Run) { return fieldsBody(mode, quickSp.mach, true, rep, sc) })
+			}
+			add("meta", func(sc string) func(r *explore.Run) { return metaBody(mode, quickSp, rep, sc) })
 			continue
 		}
-		add("fields-env", func(sc string) func(r *explore.Run) { return fieldsBody(mode, quickMachSets(), true, rep, sc) })
-		// Thorough: every label subset with the reduced annotation sets, and
-		// every annotation subset (not already covered) with the reduced
-		// label sets.
+		add("fields", func(sc string) func(r *explore.Run) { return fieldsBody(mode, sp.mach, false, rep, sc) })
+		add("fields-env", func(sc string) func(r *explore.Run) { return fieldsBody(mode, quickSp.mach, true, rep, sc) })
+		// Every label subset with the reduced annotation sets, and every
+		// annotation subset (not already covered) with the reduced label sets.
 		var rest []int
 		for _, a := range allKeySets() {
 			if !isReducedKeySet(a) {
